@@ -22,7 +22,7 @@ func hUTF8(r int) string {
 	return string([]byte{0xF0 | byte(r>>18), 0x80 | byte(r>>12)&0x3F, 0x80 | byte(r>>6)&0x3F, 0x80 | byte(r)&0x3F})
 }
 
-// verif:harness props=C07 tprops=C13 tier=quick weight=60
+// verif:harness props=C07 tier=quick weight=60
 // verif:bounds SQLite backend (SQL model + JSON string-map model): one message enqueued with a 2-byte payload (every byte value), a header whose value is ANY Unicode scalar value (U+0000..U+10FFFF without surrogates, as valid UTF-8) followed by any ASCII byte, a second fixed header and a trace entry with the same value, then dequeued: payload, headers and trace come back exactly
 func VerifC07SQLiteHeaderRoundTrip() {
 	vrt.SQLModel()
